@@ -23,6 +23,13 @@ import (
 // choices the case was built from: "ok Field=<val>;…" for the touched fields (all others must keep their
 // built-in default), "exit <code>" or "panic".
 //
+// F31: docs/config.md writes the command line as `-key value`, for every key. A boolean written that way
+// (`-ipfix-enabled false`), a stray word, words behind "--" or a lone "-" are positional arguments for package
+// flag, and the first of them ends its parsing. For such command lines the expectation is the property's, not the
+// parser's: "refused-or ok Field=<val>;…" — the process refuses to start (exit 2, like every other command line
+// it cannot interpret) or every setting has the value of the documented precedence, where every `-key value` on
+// the command line counts, wherever it stands. "child" = no expectation, but the case may end the process.
+//
 // The key table is the documented one (docs/config.md) with the flag spellings of `vflow -h`.
 func init() {
 	kinds["options"] = &kind{gen: genOptions}
@@ -161,9 +168,11 @@ func genOptionsCase(r *rand.Rand, w *bufio.Writer) {
 		env, file, flag *optVal
 	}
 	var choices []*choice
-	special := ""     // overrides the expectation: "exit N" | "panic"
-	useCfg := true    // pass -config <file>
-	haveFile := false // write a file at all
+	special := ""                 // overrides the expectation: "exit N" | "panic"
+	stray := false                // some word of the command line is neither a flag nor the value of one (F31)
+	bareBool := map[string]bool{} // first tokens of the one-word groups that are a bare boolean flag
+	useCfg := true                // pass -config <file>
+	haveFile := false             // write a file at all
 
 	nk := 1 + r.Intn(4)
 	if r.Intn(10) == 0 {
@@ -203,8 +212,14 @@ func genOptionsCase(r *rand.Rand, w *bufio.Writer) {
 			}
 			txt := optText(r, v, true)
 			switch {
+			case k.kind == "b" && r.Intn(6) == 0:
+				// the documented form `-key value` for a boolean (true/false/1/0/t/f/…): package flag sets the key to
+				// true and takes the word for the first positional argument
+				args = append(args, []string{dash + k.flag, txt})
+				stray = true
 			case k.kind == "b" && v.text == "true" && r.Intn(2) == 0:
 				args = append(args, []string{dash + k.flag})
+				bareBool[dash+k.flag] = true
 			case k.kind == "b" || r.Intn(3) == 0:
 				args = append(args, []string{dash + k.flag + "=" + txt})
 			default:
@@ -284,8 +299,19 @@ func genOptionsCase(r *rand.Rand, w *bufio.Writer) {
 			}
 		}
 	case 5:
-		args = append(args, []string{[]string{"-h", "-help", "--help"}[r.Intn(3)]})
-		special = "exit 0"
+		if !stray { // behind a positional word -h is not read: the command line is refused (2) before or instead of helped (0)
+			args = append(args, []string{[]string{"-h", "-help", "--help"}[r.Intn(3)]})
+			special = "exit 0"
+		}
+	case 6:
+		// `-key word` for a boolean key with a word that is no boolean: like `-key=word`, nothing to start with
+		for _, ki := range r.Perm(len(optKeys)) {
+			if k := optKeys[ki]; k.kind == "b" {
+				args = append(args, []string{"-" + k.flag, []string{"maybe", "yes", "no", "2", "on", "x"}[r.Intn(6)]})
+				special = "exit 2"
+				break
+			}
+		}
 	}
 
 	// assemble the command line: shuffle the groups, "\x00after"/"\x00last" groups go to the end
@@ -319,6 +345,7 @@ func genOptionsCase(r *rand.Rand, w *bufio.Writer) {
 		// near misses at the very end: words that are not the config flag (no dash: ends the flags) must not locate the file
 		back = append(back, []string{"\x01" + []string{"config=", "=", "x-config="}[r.Intn(3)]})
 		nearMiss = true
+		stray = true
 	}
 	if r.Intn(60) == 0 && special == "" {
 		// the config flag without a value as the very last word
@@ -346,6 +373,32 @@ func genOptionsCase(r *rand.Rand, w *bufio.Writer) {
 		default: // as the value of another flag (the path itself then ends flag parsing as the first non-flag word)
 			back = append(back, []string{"-log-file"}, []string{[]string{"-config", "--config"}[r.Intn(2)], "@"})
 		}
+	}
+	if special == "" && !noOracle && r.Intn(20) == 0 {
+		// a word that is neither a flag nor the value of one, anywhere among the flags (the flags behind it stay
+		// on the command line: F31); never directly behind a bare boolean flag, whose `-key value` form it would be
+		var g [][]string
+		switch r.Intn(4) {
+		case 0:
+			g = [][]string{{"--"}, {[]string{"stray", "false", "0", "-sflow-port=1"}[r.Intn(4)]}}
+			if r.Intn(3) == 0 {
+				g = g[:1] // "--" alone: when it is the last word nothing follows it, and nothing is positional
+			}
+		case 1:
+			g = [][]string{{"-"}}
+		default:
+			g = [][]string{{[]string{"stray", "x", "7000", "true", "false", "0", "config", "vflow.conf", "="}[r.Intn(9)]}}
+		}
+		p := 0
+		for try := 0; try < 4; try++ {
+			q := r.Intn(len(front) + 1)
+			if q == 0 || !(len(front[q-1]) == 1 && bareBool[front[q-1][0]]) || g[0][0] == "--" {
+				p = q
+				break
+			}
+		}
+		front = append(front[:p:p], append(g, front[p:]...)...)
+		stray = true
 	}
 	var toks []string
 	for _, g := range append(front, back...) {
@@ -391,9 +444,13 @@ func genOptionsCase(r *rand.Rand, w *bufio.Writer) {
 			}
 		}
 		exp = "ok " + strings.Join(parts, ";")
+		if stray {
+			exp = "refused-or " + exp
+		}
 	}
 	if noOracle {
-		fmt.Fprintf(w, "options %s %s %s\n", envS, fileS, argS)
+		// (behind "--", behind the value of -log-file, behind a near-miss word the config flag's words are positional)
+		fmt.Fprintf(w, "options %s %s %s\tchild\n", envS, fileS, argS)
 		return
 	}
 	fmt.Fprintf(w, "options %s %s %s\t%s\n", envS, fileS, argS, exp)
